@@ -876,6 +876,9 @@ class ReadParquetPyarrowFS(ReadParquet):
                 for finfo in self.fs.get_file_info(dataset_selector)
                 if finfo.type == pa.fs.FileType.File
             ]
+            # the listing order of the filesystem is arbitrary; partitions follow
+            # the natural order of the file names, as for the fsspec reader
+            all_files = sorted(all_files, key=lambda x: natural_sort_key(x.path))
         except (NotADirectoryError, FileNotFoundError):
             all_files = [self.fs.get_file_info(path_normalized)]
         # TODO: At this point we could verify if we're dealing with a very
